@@ -57,6 +57,14 @@ def run(tier, seed, replay):
     cov["distinct_nontrivial"] = len(rows)
     cov["rule"] = "one case = (context path of 0-3 segments over {root, rootx, roo, xroot, ctx}, resource path with keys over {k, a%2Fb, ., .., '', root}, trailing slash, scheme+host present, query none/plain/percent-encoded); each built as GET and as JSON request"
     cov["exhaustive"] = True
+    # generated clients (v2): the request path of every call of the VT resources, sub-resources included, under both
+    # resolver bases (with and without a context path that already ends with the root resource)
+    from props import e2e_common
+    viol, st, rc = e2e_common.exchanges(scr, sdir, "C15/")
+    for o in viol:
+        verdict.add(o["key"], o["what"], o["case"])
+    cov["generated_client_calls"] = st.get("calls", 0)
+    cov["tlc_call"] = rc.summary()
     code, nv = verdict.finish()
     if replay:
         return code
